@@ -1,0 +1,124 @@
+//go:build verif && !single_cert
+// +build verif,!single_cert
+
+package gmtls
+
+// Verification hook (build tag verif): a scripted GMSSL client that COOPERATES with whatever protocol version the
+// server answers. It is the library's GMSSL client (makeClientHelloGM, doFullHandshake, establishKeys, sendFinished,
+// readFinished) in everything except two points: the client_version of its hello is the caller's, and it accepts the
+// version of the ServerHello (the genuine client refuses anything but 0x0101) and goes on at that version. It exists
+// to check that a GMSSL server never completes a handshake at a version other than GMSSL 1.1 even when the peer
+// plays along.
+
+import (
+	"errors"
+	"net"
+	"sync/atomic"
+)
+
+// VerifVersionPeerResult: what the scripted peer saw.
+type VerifVersionPeerResult struct {
+	GotServerHello bool
+	Vers           uint16 // ServerHello.server_version
+	Suite          uint16 // ServerHello.cipher_suite
+	Alert          int    // alert description received instead of the expected message, -1 if none
+	Completed      bool   // the server's Finished verified
+}
+
+// VerifVersionPeerHandshake runs the scripted client with client_version = helloVers.
+func (c *Conn) VerifVersionPeerHandshake(helloVers uint16) (res VerifVersionPeerResult, err error) {
+	c.handshakeMutex.Lock()
+	defer c.handshakeMutex.Unlock()
+	c.in.Lock()
+	defer c.in.Unlock()
+	res.Alert = -1
+	err = c.verifVersionPeer(helloVers, &res)
+	if err != nil {
+		var oe *net.OpError
+		if errors.As(err, &oe) {
+			if a, ok := oe.Err.(alert); ok && oe.Op == "remote error" {
+				res.Alert = int(a)
+			}
+		}
+		c.flush()
+	}
+	c.handshakeErr = err
+	return res, err
+}
+
+func (c *Conn) verifVersionPeer(helloVers uint16, res *VerifVersionPeerResult) error {
+	if c.config == nil || c.config.GMSupport == nil {
+		return errors.New("verif: the scripted client is a GM client")
+	}
+	c.vers = VersionGMSSL
+	hello, err := makeClientHelloGM(c.config)
+	if err != nil {
+		return err
+	}
+	hello.vers = helloVers
+	hs := &clientHandshakeStateGM{c: c, hello: hello}
+	if _, err := c.writeRecord(recordTypeHandshake, hs.hello.marshal()); err != nil {
+		return err
+	}
+	msg, err := c.readHandshake()
+	if err != nil {
+		return err
+	}
+	var ok bool
+	if hs.serverHello, ok = msg.(*serverHelloMsg); !ok {
+		c.sendAlert(alertUnexpectedMessage)
+		return unexpectedMessageError(hs.serverHello, msg)
+	}
+	res.GotServerHello, res.Vers, res.Suite = true, hs.serverHello.vers, hs.serverHello.cipherSuite
+	switch hs.serverHello.vers {
+	case VersionGMSSL, VersionSSL30, VersionTLS10, VersionTLS11, VersionTLS12:
+	default:
+		// prfForVersion panics on anything else: nothing to cooperate with
+		c.sendAlert(alertProtocolVersion)
+		return errors.New("verif: the server selected a version that has no key schedule")
+	}
+	// the deviation: whatever version the server answered is taken
+	c.vers = hs.serverHello.vers
+	c.haveVers = true
+	if err = hs.pickCipherSuite(); err != nil {
+		return err
+	}
+	isResume, err := hs.processServerHello()
+	if err != nil {
+		return err
+	}
+	if isResume {
+		return errors.New("verif: the scripted client only performs full handshakes")
+	}
+	hs.finishedHash = newFinishedHashGM(hs.suite)
+	if len(c.config.Certificates) == 0 && c.config.GetClientCertificate == nil {
+		hs.finishedHash.discardHandshakeBuffer()
+	}
+	hs.finishedHash.Write(hs.hello.marshal())
+	hs.finishedHash.Write(hs.serverHello.marshal())
+	c.buffering = true
+	if err := hs.doFullHandshake(); err != nil {
+		return err
+	}
+	if err := hs.establishKeys(); err != nil {
+		return err
+	}
+	if err := hs.sendFinished(c.clientFinished[:]); err != nil {
+		return err
+	}
+	if _, err := c.flush(); err != nil {
+		return err
+	}
+	c.clientFinishedIsFirst = true
+	if err := hs.readSessionTicket(); err != nil {
+		return err
+	}
+	if err := hs.readFinished(c.serverFinished[:]); err != nil {
+		return err
+	}
+	res.Completed = true
+	c.ekm = ekmFromMasterSecret(c.vers, hs.suite, hs.masterSecret, hs.hello.random, hs.serverHello.random)
+	atomic.StoreUint32(&c.handshakeStatus, 1)
+	c.handshakes++
+	return nil
+}
